@@ -28,6 +28,8 @@ class FwdTicker(actors.Party):
         prof = c["clock"]
         if r.random() < 0.12:
             return {"op": "slow", "stmt": r.randrange(1, 4), "us": r.choice([1_000, 3_000_000, 12_000_000, 40_000_000])}
+        if r.random() < 0.1:
+            return {"op": "fault_commit"}
         if prof == "burst":
             us = r.choice([r.randrange(0, 50_000), r.randrange(0, 50_000), r.randrange(9_000_000, 13_000_000)])
         elif prof == "trickle":
@@ -66,7 +68,7 @@ class C18(Check):
         ">11 s after the last possible flush while earlier writes were still buffered or it was itself a buffered write; "
         "distinct = (op-kind sequence, clock profile)"
     )
-    expected_probes = ["age_requirement_checked", "age_requirement_with_older_buffered", "clock_idle_over_10s", "fault_slow_statement", "no_requirement_under_11s", "fault_restart_dirty", "delete_live", "client_read", "sibling_store_traffic"]
+    expected_probes = ["age_requirement_checked", "age_requirement_with_older_buffered", "clock_idle_over_10s", "fault_slow_statement", "no_requirement_under_11s", "fault_restart_dirty", "delete_live", "client_read", "sibling_store_traffic", "fault_commit_failed"]
     assumptions = [
         "the store reads the wall clock through Python's datetime/time (the seam); every virtual-time failure is re-run under the real clock before it is reported",
         "'about ten seconds' is taken as: required beyond 11 s, nothing required up to 11 s",
